@@ -71,6 +71,11 @@ def m_nanhit(y_true, y_pred):
     return len(y_true) / hits
 
 
+def m_bigint(y_true, y_pred):
+    """Integer-valued metric beyond 2**53 (an id-like or nanosecond-like count): group gaps are lost in float64."""
+    return np.int64(2**60) + np.int64(int(np.sum(np.asarray(y_pred, dtype=float) != 0)) * 3 + len(y_true))
+
+
 def m_const(y_true, y_pred, **kw):
     """Constant over the rows: every resample and every group gives the same value."""
     return 3.5
@@ -83,8 +88,8 @@ def _fl(name):
 
 
 def metric_callable(key):
-    if key in ("lin", "max", "wmean", "npint", "npfloat", "const", "tiny", "nanhit"):
-        return {"nanhit": m_nanhit, "lin": m_lin, "max": m_max, "wmean": m_wmean, "npint": m_npint, "npfloat": m_npfloat,
+    if key in ("lin", "max", "wmean", "npint", "npfloat", "const", "tiny", "nanhit", "bigint"):
+        return {"bigint": m_bigint, "nanhit": m_nanhit, "lin": m_lin, "max": m_max, "wmean": m_wmean, "npint": m_npint, "npfloat": m_npfloat,
                 "const": m_const, "tiny": m_tiny}[key]
     if key in ("count", "selection_rate", "mean_prediction", "true_positive_rate", "false_positive_rate",
                "true_negative_rate", "false_negative_rate"):
@@ -106,6 +111,7 @@ METRIC_PARAMS = {
     "const": ["p"],
     "tiny": ["sample_weight", "p"],
     "nanhit": [],
+    "bigint": [],
     "count": [],
     "selection_rate": ["sample_weight"],
     "mean_prediction": ["sample_weight"],
